@@ -10,6 +10,7 @@ import (
 	"sort"
 
 	"github.com/openebs/jiva/types"
+	"github.com/openebs/jiva/util"
 )
 
 // VerifState is a deep copy of the in-memory bookkeeping of a Replica.
@@ -134,3 +135,10 @@ func VerifFlushHoles() {
 
 // VerifPendingHoles is the current length of the hole queue.
 func VerifPendingHoles() int { return len(HoleCreatorChan) }
+
+func verifOSync() int {
+	if util.VerifNoSync {
+		return 0
+	}
+	return os.O_SYNC
+}
